@@ -465,7 +465,12 @@ func runC10store(c *Ctx) {
 			}
 			lh := repo.LastHeight()
 			var prev bitcoin.Hash32
+			havePrev := false
 			for h := 0; h <= lh; h++ {
+				if !c10heightWanted(h, lh) {
+					havePrev = false
+					continue
+				}
 				hdr, err := repo.Header(quietCtx(), h)
 				if err != nil {
 					c.Violate("crash-load-error", "store/header/after="+after, "image %d of %d (%s): Header(%d) of a loaded chain of height %d fails: %v; history: %s", i, len(log), after, h, lh, err, desc.String())
@@ -476,7 +481,7 @@ func runC10store(c *Ctx) {
 					c.Violate("crash-mixed", "store/foreign-header", "image %d of %d: loaded header at height %d was never added", i, len(log), h)
 					return
 				}
-				if h > 0 && hdr.PrevBlock != prev {
+				if h > 0 && havePrev && hdr.PrevBlock != prev {
 					c.Violate("crash-unlinked", "store/after="+after, "image %d of %d (%s): the loaded chain (height %d) is not linked at height %d: a mixture of an old and a new branch; history: %s", i, len(log), after, lh, h, desc.String())
 					return
 				}
@@ -485,6 +490,7 @@ func runC10store(c *Ctx) {
 					return
 				}
 				prev = hh
+				havePrev = true
 			}
 			c.Probe("store_images_checked")
 		}
@@ -598,11 +604,24 @@ func c10storeExec(hist []c10sop, removeMissingErr bool, failAt int, salt0 int) (
 	return m, s, disk, failedOp, ""
 }
 
+// c10heightWanted thins out the heights checked in files far below the tip (every query there
+// reads and parses a whole 1000-header file): everything within 1100 of the tip and within 3 of a
+// file boundary, every 13th height elsewhere.
+func c10heightWanted(h, tip int) bool {
+	if tip-h <= 1100 || h%1000 <= 3 || h%1000 >= 997 {
+		return true
+	}
+	return h%13 == 0
+}
+
 func c10storeSame(repo *storage.BlockRepository, m *c09model) string {
 	if lh := repo.LastHeight(); lh != m.tip() {
 		return fmt.Sprintf("height %d, expected %d", lh, m.tip())
 	}
 	for h := 0; h <= m.tip(); h++ {
+		if !c10heightWanted(h, m.tip()) {
+			continue
+		}
 		hdr, err := repo.Header(quietCtx(), h)
 		if err != nil {
 			return fmt.Sprintf("Header(%d) of %d fails: %v", h, m.tip(), err)
